@@ -36,6 +36,10 @@ func c11Extras() []*qast.Node {
 		G(or(T(qast.Q("a*")), T(qast.I("5")))),
 		G(qast.Bin(qast.OAnd, T(qast.I("5")), T(qast.F("1.5")))),
 		G(qast.UnA(qast.OFuzzy, "2", T(qast.W("x")))),
+		G(qast.Bin(qast.OAnd, T(qast.W("x")), or(T(qast.W("y")), T(qast.W("z"))))),          // f:(x AND (y OR z))
+		G(qast.Bin(qast.OOr, T(qast.W("x")), qast.Bin(qast.OAnd, T(qast.W("y")), T(qast.W("z"))))), // f:(x OR y AND z)
+		G(qast.Un(qast.ONot, or(T(qast.W("x")), T(qast.W("y"))))),                            // f:(NOT (x OR y))
+		G(or(T(qast.W("x")), or(T(qast.W("y")), T(qast.W("z"))))),                             // f:(x OR (y OR z))
 		T(qast.I("404")), T(qast.F("1.5")), T(qast.I("-5")), T(qast.Q("a*")), T(qast.Q("/x/")), T(qast.W(`a\*`)), T(qast.Re("/r/")), T(qast.Wi("?")),
 	}
 }
